@@ -677,6 +677,17 @@ func GenRun(verifSeed uint64, run int, tier string, profiles []string) *RunSpec 
 					st.Repeat = true
 				}
 			}
+			if spec.Profile == "geometry1" {
+				// paths with 32-60 contours for the calls that otherwise never get one (a change may
+				// treat "many subpaths" differently, s34). Drawn from a stream of its own and only in
+				// the single-task batch, so that every other run stays what it was.
+				switch st.Op {
+				case "dash", "offset", "settle":
+					if x := simrt.Mix(seed, 0xda54, uint64(t), uint64(s)); x%100 < 12 && !st.ChainA {
+						st.A = genManyContours(simrt.NewRand(x), l)
+					}
+				}
+			}
 			if st.Op == "render" && st.FailAt == 0 && wl.Bool(0.3) {
 				// draw now, render later: other calls of this task (and other tasks) come in between
 				d, rr := genDrawThenRender(wl, l, nf)
